@@ -655,3 +655,50 @@ Theorem C11_pools_exact_replays :
                 In (x, sid) (expected_leases g0 (live_run evs)).
 Proof. exact pools_exact_replays. Qed.
 Print Assumptions C11_pools_exact_replays.
+
+(* ------------------------------------------------------------------ /repo HEAD under range replays: what can be proved *)
+(* For /repo HEAD's receiver (and every flag set with the release behaviour of 88d6de6) and ANY list of requests handed to
+   it — any order, stale, duplicated, of any session — every reservation is backed by a checkpoint in the store that
+   claims it for that owner: the receiver never holds an orphan reservation. *)
+Theorem C11_head_reservations_backed :
+  forall g0 fl d, f_drop fl = false -> f_relall fl = false -> fresh g0 ->
+  backed g0 (recv_run fl (mkrecv [] [] g0) d).
+Proof. intros g0 fl d Hd Hr Hf. exact (backed_run g0 fl d Hd Hr _ (backed_fresh g0 Hf)). Qed.
+Print Assumptions C11_head_reservations_backed.
+
+(* Hence, after any history with range replays that reach the newest delivered message (delivery_runs), HEAD — which
+   re-applies the replayed messages — holds NO reservation that does not belong to a live session (nothing leaks), and
+   its store is exact (C11_converges_replays_partial).  PARTIAL: the converse — every address of a live session is
+   reserved at the end of the replays — is not proved for HEAD (a replayed old checkpoint can take a reservation away
+   for a while; the later messages of the run give it back); it is proved for the repaired receiver
+   (C11_pools_exact_replays) and compared with it by the check (mode replay). *)
+Theorem C11_pools_sound_replays_head_partial :
+  forall g0 cap g fl evs d,
+  f_stale fl = true -> f_drop fl = false -> f_relall fl = false ->
+  g <> 0%N -> (forall e, In e evs -> s_srg (fst e) = g) -> (N.of_nat (length evs) < n64)%N ->
+  fresh g0 ->
+  let reqs := snd (sender_run [(g, (0%N, new_ring cap))] evs) in
+  delivery_runs reqs 0 d (length reqs) ->
+  forall x sid, lease_at (rc_reg (recv_run fl (mkrecv [] [] g0) d)) x = Some sid ->
+                In (x, sid) (expected_leases g0 (live_run evs)).
+Proof. exact pools_sound_replays. Qed.
+Print Assumptions C11_pools_sound_replays_head_partial.
+
+Example C11_replays_head_nonvacuous :
+  (* session 1 gives its address up, session 3 takes it; everything delivered, then the whole range is replayed: the
+     replayed release of session 1's old checkpoint takes the address away from session 3 for a moment *)
+  let s1 := ex_sess 1 (Some ex_a) 1 in
+  let s1' := ex_sess 1 None 0 in
+  let s3 := ex_sess 3 (Some ex_a) 1 in
+  let evs := [(s1, false); (s1', false); (s3, false)] in
+  let reqs := snd (sender_run [(1%N, (0%N, new_ring 8))] evs) in
+  let d := firstn 3 (skipn 0 reqs) ++ firstn 3 (skipn 0 reqs) ++ [] in
+  delivery_runs reqs 0 d 3 /\
+  leases_of (rc_reg (recv_run head (mkrecv [] [] ex_reg) (firstn 3 reqs ++ firstn 2 reqs))) = [] /\
+  leases_of (rc_reg (recv_run head (mkrecv [] [] ex_reg) d)) = [((4, 1, ex_a)%N, 3%N)] /\
+  expected_leases ex_reg (live_run evs) = [((4, 1, ex_a)%N, 3%N)].
+Proof.
+  cbv zeta. split; [|vm_compute; repeat split; reflexivity].
+  apply (dr_run _ 0 0 3); [lia|lia|vm_compute; lia|]. apply (dr_run _ 3 0 3); [lia|lia|vm_compute; lia|]. apply dr_nil.
+Qed.
+Print Assumptions C11_replays_head_nonvacuous.
